@@ -27,17 +27,26 @@ func VH_C11_control_string()  { vhC11Control("string") }
 // makes them agree without touching any file; afterwards searches
 // reflect file contents.
 func VH_C11_faults() {
-	cfg := vhCfgs[[]int{0, 2}[vChoice("cfg", 2)]]
+	// base, gzip, and a custom extension with two dots (with and without gzip)
+	cfgs := []vhCfg{vhCfgs[0], vhCfgs[2], {name: "ext2", ext: ".v1.json"}, {name: "ext2gz", ext: ".v1.json", compress: true}}
+	cfg := cfgs[vChoice("cfg", len(cfgs))]
 	db, root := vhOpenDB(cfg)
 	dir := root + "/sod.vObj"
 	ext := ".json"
+	if cfg.ext != "" {
+		ext = cfg.ext
+	}
 	if cfg.compress {
-		ext = ".json.gz"
+		ext += ".gz"
 	}
 	n := vLen("n", 1, vBound("N", 2))
 	var rows []vhRow
+	callerIDs := vChoice("callerids", 2) == 1 // identifiers chosen by the caller, upper-case hex
 	for k := 0; k < n; k++ {
 		o := vhNewObj()
+		if callerIDs {
+			o.Initialize([]string{"6BA7B810-9DAD-41D1-80B4-00C04FD430C8", "6F9619FF-8B86-4011-B42D-00C04FC964FF"}[k])
+		}
 		vAssert("C11.build.insert", db.InsertOrUpdate(o) == nil)
 		rows = append(rows, vhRow{o.UUID(), *o})
 	}
